@@ -325,6 +325,10 @@ def _chunk(acc, rng, cfg, first_table, n_tables, workdir, use_asan):
     for k in range(n_tables):
         marker = gdraw.MARKERS[(first_table + k) % len(gdraw.MARKERS)]
         t = gdraw.random_table(rng, marker=marker)
+        if rng.random() < 0.15:
+            # string literals with runs of blanks inside them (a cell line carries them as they are; they are part of the value)
+            gdraw.space_strings(t, rng, drawable=True)
+            acc.bump("tables_with_blank_runs_inside_string_literals")
         t["inputs_steered"] = gdraw.steer_inputs(t, rng)
         tables.append(t)
         for orientation in ("row", "col"):
@@ -381,7 +385,7 @@ def _chunk(acc, rng, cfg, first_table, n_tables, workdir, use_asan):
     for k, t in enumerate(tables):
         tuples = t["inputs_steered"]
         ctxs = [gdraw.input_context(t, tup) for tup, _ in tuples]
-        xml, dname = gdraw.to_dmn_xml(t, "row")
+        xml, dname = gdraw.to_dmn_xml(t, "row", raw=bool(t.get("spaced")))
         mcases.append({"op": "model", "xml": xml, "calls": [[dname, c] for c in ctxs]})
         for (kk, orientation, text, merged) in drawings:
             if kk == k:
